@@ -1,11 +1,400 @@
 import SigModel.Driver.Loop
+import SigModel.Spec.ShapesBackend
 
-/-! Driver for C11 — stub (no model yet). -/
+/-!
+Driver for C11.
+
+Ops (one case = one fresh server):
+  `setup <n> <room> <dial>`     n = 0: no clients; n = 1: client c1 (user u1) joined to `room` with
+                                Nextcloud session id rs1, client c2 (user u2) connected without room.
+                                dial ∈ none|accept|error|ringing|badtype|silent: the internal dial-out client.
+  `req <room> <body>`           signed POST of the (percent-encoded) bytes to /api/v1/room/<room>;
+                                the bytes are a JSON document, decoded here the way the generated
+                                easyjson decoder of BackendServerRoomRequest decodes it
+  `raw <room> <bytes>`          the same with bytes that are no JSON document at all
+
+Implementation / model output of a request: `<status|neterr> <live|dead> <events> <digest>`.
+-/
 namespace SigModel.Driver.C11
+open SigModel.Proto SigModel.ShapesBackend
+
+/-! ### a small JSON reader (documents produced by the harness printer) -/
+
+inductive J where
+  | null
+  | bool (b : Bool)
+  | num (lit : String)
+  | str (s : String)
+  | arr (xs : List J)
+  | obj (kvs : List (String × J × String))     -- key, value, raw text of the value
+  deriving Inhabited
+
+def isWs (c : Char) : Bool := c == ' ' || c == '\n' || c == '\t' || c == '\r'
+
+def skipWs : List Char → List Char
+  | c :: cs => if isWs c then skipWs cs else c :: cs
+  | [] => []
+
+def hex4 : List Char → Option (Nat × List Char)
+  | a :: b :: c :: d :: rest =>
+    match hexVal a, hexVal b, hexVal c, hexVal d with
+    | some w, some x, some y, some z => some (((w * 16 + x) * 16 + y) * 16 + z, rest)
+    | _, _, _, _ => none
+  | _ => none
+
+partial def parseStr (cs : List Char) (acc : List Char) : Option (String × List Char) :=
+  match cs with
+  | [] => none
+  | '"' :: rest => some (String.ofList acc.reverse, rest)
+  | '\\' :: e :: rest =>
+    match e with
+    | '"' => parseStr rest ('"' :: acc)
+    | '\\' => parseStr rest ('\\' :: acc)
+    | '/' => parseStr rest ('/' :: acc)
+    | 'b' => parseStr rest (Char.ofNat 8 :: acc)
+    | 'f' => parseStr rest (Char.ofNat 12 :: acc)
+    | 'n' => parseStr rest ('\n' :: acc)
+    | 'r' => parseStr rest ('\r' :: acc)
+    | 't' => parseStr rest ('\t' :: acc)
+    | 'u' =>
+      match hex4 rest with
+      | some (n, rest') =>
+        if 0xD800 ≤ n ∧ n < 0xDC00 then
+          match rest' with
+          | '\\' :: 'u' :: r2 =>
+            match hex4 r2 with
+            | some (m, r3) =>
+              if 0xDC00 ≤ m ∧ m < 0xE000 then
+                parseStr r3 (Char.ofNat (0x10000 + (n - 0xD800) * 1024 + (m - 0xDC00)) :: acc)
+              else none
+            | none => none
+          | _ => none
+        else parseStr rest' (Char.ofNat n :: acc)
+      | none => none
+    | _ => none
+  | c :: rest => if c.toNat < 0x20 then none else parseStr rest (c :: acc)
+
+def isNumChar (c : Char) : Bool :=
+  ('0' ≤ c && c ≤ '9') || c == '-' || c == '+' || c == '.' || c == 'e' || c == 'E'
+
+def rawOf (before after : List Char) : String :=
+  String.ofList (before.take (before.length - after.length))
+
+mutual
+partial def parseVal (cs0 : List Char) : Option (J × List Char) :=
+  let cs := skipWs cs0
+  match cs with
+  | 'n' :: 'u' :: 'l' :: 'l' :: rest => some (.null, rest)
+  | 't' :: 'r' :: 'u' :: 'e' :: rest => some (.bool true, rest)
+  | 'f' :: 'a' :: 'l' :: 's' :: 'e' :: rest => some (.bool false, rest)
+  | '"' :: rest => (parseStr rest []).map (fun (s, r) => (.str s, r))
+  | '[' :: rest =>
+    match skipWs rest with
+    | ']' :: r => some (.arr [], r)
+    | r => parseElems r []
+  | '{' :: rest =>
+    match skipWs rest with
+    | '}' :: r => some (.obj [], r)
+    | r => parseMembers r []
+  | c :: _ =>
+    if c == '-' || ('0' ≤ c && c ≤ '9') then
+      let lit := cs.takeWhile isNumChar
+      some (.num (String.ofList lit), cs.drop lit.length)
+    else none
+  | [] => none
+
+partial def parseElems (cs : List Char) (acc : List J) : Option (J × List Char) :=
+  match parseVal cs with
+  | none => none
+  | some (v, rest) =>
+    match skipWs rest with
+    | ',' :: r => parseElems r (v :: acc)
+    | ']' :: r => some (.arr (v :: acc).reverse, r)
+    | _ => none
+
+partial def parseMembers (cs : List Char) (acc : List (String × J × String)) : Option (J × List Char) :=
+  match skipWs cs with
+  | '"' :: rest =>
+    match parseStr rest [] with
+    | none => none
+    | some (k, r1) =>
+      match skipWs r1 with
+      | ':' :: r2 =>
+        let r2 := skipWs r2
+        match parseVal r2 with
+        | none => none
+        | some (v, r3) =>
+          let raw := rawOf r2 r3
+          match skipWs r3 with
+          | ',' :: r4 => parseMembers r4 ((k, v, raw) :: acc)
+          | '}' :: r4 => some (.obj ((k, v, raw) :: acc).reverse, r4)
+          | _ => none
+      | _ => none
+  | _ => none
+end
+
+def parseJson (s : String) : Option J :=
+  match parseVal s.toList with
+  | some (v, rest) => if (skipWs rest).isEmpty then some v else none
+  | none => none
+
+/-! ### BackendServerRoomRequest as the easyjson decoder builds it
+
+Rules of the generated code: a member whose value is `null` is skipped (the field keeps its value);
+unknown members are skipped; a member of the wrong JSON type is an error; a repeated sub-object
+member merges into the existing sub-object, a repeated list/map member replaces it. -/
+
+/-- `-?(0|[1-9][0-9]*)`: what `strconv.ParseInt` (jlexer.Int64, json.Unmarshal into int) accepts. -/
+def intLit? (lit : String) : Option Int :=
+  let cs := lit.toList
+  let ds := if cs.head? = some '-' then cs.drop 1 else cs
+  if ds.isEmpty || !ds.all (fun c => '0' ≤ c && c ≤ '9') then none
+  else if ds.length > 1 && ds.head? = some '0' then none
+  else lit.toInt?
+
+/-- float64 → `int(value)` for plain decimal literals (integer part). -/
+def truncLit (lit : String) : Int :=
+  let cs := lit.toList.takeWhile (fun c => c != '.' && c != 'e' && c != 'E')
+  (String.ofList cs).toInt?.getD 0
+
+def strList? : J → Option (List String)
+  | .arr xs => xs.mapM (fun x => match x with | .str s => some s | _ => none)
+  | _ => none
+
+def toVal : J → Val
+  | .null => .null
+  | .bool b => .bool b
+  | .num lit => .num (truncLit lit)
+  | .str s => .str s
+  | .arr xs => .list (xs.map (fun x => match x with | .str s => some s | _ => none))
+  | .obj _ => .other
+
+/-- `[]map[string]interface{}`: elements are `null` or objects. -/
+def entries? : J → Option (List Entry)
+  | .arr xs => xs.mapM (fun x => match x with
+    | .null => some ([] : Entry)
+    | .obj kvs => some (kvs.foldl (fun (e : Entry) (k, v, _) => Entry.set e k (toVal v)) [])
+    | _ => none)
+  | _ => none
+
+abbrev Members := List (String × J × String)
+
+/-- Fold over the non-null members of an object. -/
+def foldMembers {α : Type} (kvs : Members) (init : α) (f : α → String → J → String → Option α) : Option α :=
+  kvs.foldlM (fun a (k, v, raw) => match v with
+    | .null => some a
+    | _ => f a k v raw) init
+
+def str? : J → Option String
+  | .str s => some s
+  | _ => none
+
+def decInvite (cur : Invite) (kvs : Members) : Option Invite :=
+  foldMembers kvs cur fun a k v raw =>
+    if k = "userids" then (strList? v).map (fun l => { a with userIds := l })
+    else if k = "alluserids" then (strList? v).map (fun l => { a with allUserIds := l })
+    else if k = "properties" then some { a with properties := raw }
+    else some a
+
+def decDisinvite (cur : Disinvite) (kvs : Members) : Option Disinvite :=
+  foldMembers kvs cur fun a k v raw =>
+    if k = "userids" then (strList? v).map (fun l => { a with userIds := l })
+    else if k = "sessionids" then (strList? v).map (fun l => { a with sessionIds := l })
+    else if k = "alluserids" then (strList? v).map (fun l => { a with allUserIds := l })
+    else if k = "properties" then some { a with properties := raw }
+    else some a
+
+def decUpdate (cur : Update) (kvs : Members) : Option Update :=
+  foldMembers kvs cur fun a k v raw =>
+    if k = "userids" then (strList? v).map (fun l => { a with userIds := l })
+    else if k = "properties" then some { a with properties := raw }
+    else some a
+
+def decDelete (cur : Delete) (kvs : Members) : Option Delete :=
+  foldMembers kvs cur fun a k v _ =>
+    if k = "userids" then (strList? v).map (fun l => { a with userIds := l })
+    else some a
+
+def rawInCall : J → RawInCall
+  | .num lit => match intLit? lit with
+    | some n => .int n
+    | none => .other
+  | .bool b => .bool b
+  | _ => .other
+
+def decInCall (cur : InCall) (kvs : Members) : Option InCall :=
+  foldMembers kvs cur fun a k v _ =>
+    if k = "incall" then some { a with inCall := rawInCall v }
+    else if k = "all" then (match v with | .bool b => some { a with all := b } | _ => none)
+    else if k = "changed" then (entries? v).map (fun l => { a with changed := l })
+    else if k = "users" then (entries? v).map (fun l => { a with users := l })
+    else some a
+
+def decParticipants (cur : Participants) (kvs : Members) : Option Participants :=
+  foldMembers kvs cur fun a k v _ =>
+    if k = "changed" then (entries? v).map (fun l => { a with changed := l })
+    else if k = "users" then (entries? v).map (fun l => { a with users := l })
+    else some a
+
+def decMessage (cur : Message) (kvs : Members) : Option Message :=
+  foldMembers kvs cur fun a k _ raw =>
+    if k = "data" then some { a with data := raw } else some a
+
+/-- encoding/json on the raw `sessions`: `[]string` takes strings and nulls (""), a map any object. -/
+def rawSessions (v : J) : RawSessions :=
+  match v with
+  | .arr xs =>
+    { present := true, bracket := true,
+      asList := xs.mapM (fun x => match x with | .str s => some s | .null => some "" | _ => none),
+      asMap := none }
+  | .obj kvs =>
+    { present := true, bracket := false, asList := none,
+      asMap := some (kvs.foldl (fun acc (k, _, _) => if acc.contains k then acc else acc ++ [k]) []) }
+  | _ => { present := true, bracket := false, asList := none, asMap := none }
+
+def decSwitchTo (cur : SwitchTo) (kvs : Members) : Option SwitchTo :=
+  foldMembers kvs cur fun a k v _ =>
+    if k = "roomid" then (str? v).map (fun s => { a with roomId := s })
+    else if k = "sessions" then some { a with sessions := rawSessions v }
+    else if k = "sessionslist" then (strList? v).map (fun l => { a with sessionsList := l })
+    else if k = "sessionsmap" then
+      (match v with
+       | .obj ms => some { a with sessionsMap := ms.foldl (fun acc (k, _, _) => if acc.contains k then acc else acc ++ [k]) [] }
+       | _ => none)
+    else some a
+
+def decDialout (cur : Dialout) (kvs : Members) : Option Dialout :=
+  foldMembers kvs cur fun a k v _ =>
+    if k = "number" then (str? v).map (fun s => { a with number := s }) else some a
+
+def decTransient (cur : Transient) (kvs : Members) : Option Transient :=
+  foldMembers kvs cur fun a k v _ =>
+    if k = "action" then (str? v).map (fun s => { a with action := s })
+    else if k = "key" then (str? v).map (fun s => { a with key := s })
+    else if k = "ttl" then (match v with | .num lit => (intLit? lit).map (fun _ => a) | _ => none)
+    else some a
+
+/-- A sub-object member: must be an object; decoded into the existing sub-object or a new one. -/
+def sub {β : Type} (v : J) (cur : Option β) (new : β) (dec : β → Members → Option β) : Option (Option β) :=
+  match v with
+  | .obj kvs => (dec (cur.getD new) kvs).map some
+  | _ => none
+
+def decRequest : J → Option Request
+  | .null => some {}
+  | .obj kvs =>
+    foldMembers kvs ({} : Request) fun r k v _ =>
+      if k = "type" then (str? v).map (fun s => { r with type := s })
+      else if k = "invite" then (sub v r.invite {} decInvite).map (fun x => { r with invite := x })
+      else if k = "disinvite" then (sub v r.disinvite {} decDisinvite).map (fun x => { r with disinvite := x })
+      else if k = "update" then (sub v r.update {} decUpdate).map (fun x => { r with update := x })
+      else if k = "delete" then (sub v r.delete {} decDelete).map (fun x => { r with delete := x })
+      else if k = "incall" then (sub v r.inCall {} decInCall).map (fun x => { r with inCall := x })
+      else if k = "participants" then (sub v r.participants {} decParticipants).map (fun x => { r with participants := x })
+      else if k = "message" then (sub v r.message {} decMessage).map (fun x => { r with message := x })
+      else if k = "switchto" then (sub v r.switchTo {} decSwitchTo).map (fun x => { r with switchTo := x })
+      else if k = "dialout" then (sub v r.dialout {} decDialout).map (fun x => { r with dialout := x })
+      else if k = "transient" then (sub v r.transient {} decTransient).map (fun x => { r with transient := x })
+      else if k = "received" then (match v with | .num lit => (intLit? lit).map (fun _ => r) | _ => none)
+      else some r
+  | _ => none
+
+/-! ### ops, outputs -/
+
+def c1 : String := "@c1@"
+def c2 : String := "@c2@"
+def initialProps : String := "{\"initial\":true}"
+
+def parseDial : String → Option DialoutEnv
+  | "none" => some .noClient
+  | "accept" => some .accepted
+  | "error" => some .errorReply
+  | "ringing" => some .otherStatus
+  | "badtype" => some .otherType
+  | "silent" => some .timeout
+  | _ => none
+
+def mkWorld (n : Nat) (room : String) (d : DialoutEnv) : World :=
+  if n = 0 then { roomId := room, dialout := d }
+  else { roomId := room, dialout := d, props := initialProps,
+         sessions := [{ pub := c1, user := "u1", rsid := some "rs1" }, { pub := c2, user := "u2" }] }
+
+def evName : Ev → String
+  | .roomlistInvite => "roomlist-invite"
+  | .roomlistUpdate => "roomlist-update"
+  | .roomlistDisinvite _ => "roomlist-disinvite"
+  | .roomProps => "room-props"
+  | .roomLeft => "room-left"
+  | .roomMessage => "room-message"
+  | .switchTo => "room-switchto"
+  | .participantsUpdate => "participants-update"
+  | .closed => "closed"
+
+def stripAt (s : String) : String := String.ofList (s.toList.filter (· != '@'))
+
+def insertSorted (x : String) : List String → List String
+  | [] => [x]
+  | y :: ys => if x < y then x :: y :: ys else if x = y then y :: ys else y :: insertSorted x ys
+
+def showEvents (es : List Event) : String :=
+  let names := es.foldl (fun acc e => insertSorted (stripAt e.to ++ ":" ++ evName e.ev) acc) []
+  if names.isEmpty then "-" else ",".intercalate names
+
+def digest (w : World) : String :=
+  let r := if w.roomExists then "1" else "0"
+  let i := if w.members.any (fun s => s.pub = c1 && s.inCall) then "1" else "0"
+  s!"r{r}i{i}p{enc w.props}"
+
+def showOut (o : Out) : String :=
+  let st := match o.http with
+    | .status c => toString c
+    | .noReply => "neterr"
+  let live := if o.crash then "dead" else "live"
+  s!"{st} {live} {showEvents o.events} {digest o.world}"
+
+def parseObserved : List String → Option Observed
+  | [st, live, evs, dg] =>
+    let status := if st = "neterr" then some none else (toNat? st).map some
+    status.map fun s =>
+      { status := s, live := live = "live",
+        events := if evs = "-" then [] else evs.splitOn ",", digest := dg }
+  | _ => none
 
 structure St where
-  dummy : Unit := ()
+  world : World := { roomId := "" }
+  judge : Judge := {}
 
-def step (st : St) (_op _impl : List String) : St × String × String := (st, "bad-op", "na")
+def bodyOf (bytes : List UInt8) (decoded : Option Body) : Option Body :=
+  if bytes.length > genCfg.maxBodySize then some .tooLarge else decoded
+
+def step (st : St) (op impl : List String) : St × String × String :=
+  match op with
+  | ["setup", n, room, dial] =>
+    match toNat? n, dec room, parseDial dial with
+    | some n, some room, some d =>
+      let w := mkWorld n room d
+      ({ world := w, judge := { lastDigest := digest w } }, "ok", "ok")
+    | _, _, _ => (st, "bad-op", "na")
+  | [kind, room, body] =>
+    if kind != "req" && kind != "raw" then (st, "bad-op", "na") else
+    match dec room, decBytes body with
+    | some room, some bytes =>
+      let decoded : Option Body :=
+        if kind = "raw" then some .undecodable
+        else match String.fromUTF8? (ByteArray.mk bytes.toArray) with
+          | none => none
+          | some txt => (parseJson txt).map (fun j => match decRequest j with
+            | some r => .ok r
+            | none => .undecodable)
+      match bodyOf bytes decoded with
+      | none => (st, "bad-op", "na")
+      | some b =>
+        let o := SigModel.ShapesBackend.step genCfg st.world room b
+        let (j', v) := match parseObserved impl with
+          | some ob => st.judge.observe st.world b ob
+          | none => (st.judge, "na")
+        ({ world := o.world, judge := j' }, showOut o, v)
+    | _, _ => (st, "bad-op", "na")
+  | _ => (st, "bad-op", "na")
 
 end SigModel.Driver.C11
